@@ -119,6 +119,7 @@ def bootstrap_dispatch(ov, name):
         (),
         first_entry.__closure__,
     )
+    dispatch._bootstrap_code = dispatch.__code__
     dispatch.__signature__ = LazySignature(ov)
     dispatch.__ovld__ = ov
     dispatch.register = ov.register
@@ -503,22 +504,32 @@ class Ovld:
             self.name = self.__name__ = f"ovld{self.id}"
 
         name = self.__name__
+
+        # Until everything below has succeeded, calls go through the first-call
+        # entry point, which builds the function again: a failure part-way
+        # never leaves a partially filled table in service.
+        self._compiled = False
+        if hasattr(self, "dispatch"):
+            self.dispatch.__code__ = self.dispatch._bootstrap_code
+
         self.map = MultiTypeMap(name=name, key_error=self._key_error)
 
         self.analyze_arguments()
         dispatch = generate_dispatch(self, self.argument_analysis)
         if not hasattr(self, "dispatch"):
             self.dispatch = bootstrap_dispatch(self, name=self.shortname)
-        self.dispatch.__code__ = rename_code(dispatch.__code__, self.shortname)
+
+        for key, fn in list(self.defns.items()):
+            self.register_signature(key, fn)
+
         self.dispatch.__kwdefaults__ = dispatch.__kwdefaults__
         self.dispatch.__annotations__ = dispatch.__annotations__
         self.dispatch.__defaults__ = dispatch.__defaults__
         self.dispatch.__globals__.update(dispatch.__globals__)
         self.dispatch.map = self.map
         self.dispatch.__doc__ = self.mkdoc()
-
-        for key, fn in list(self.defns.items()):
-            self.register_signature(key, fn)
+        # The generated entry point is swapped in last
+        self.dispatch.__code__ = rename_code(dispatch.__code__, self.shortname)
 
         self._compiled = True
 
